@@ -194,6 +194,11 @@ class Own:
                 return None
             if op(f) == "ext" and f[1] in ("copy.deepcopy",):
                 return ("F",)
+            if op(f) == "ext" and f[1] == "functools.reduce" and len(t[2]) == 2 and not t[3]:
+                # reduce(f, xs) without an initial value returns xs[0] ITSELF for a one-element xs
+                e = self._elem(t[2][1], depth)
+                if e is not None:
+                    return e
             if op(f) == "ext" and f[1] == "copy.copy" and t[2]:
                 base = self.tag(t[2][0], depth + 1)
                 if base is not None and base[0] in ("B", "S"):
